@@ -137,6 +137,10 @@ def oracle(ctx, rng, n):
         base = gi.random_case(rng, positions=pos, n_types=1 if forced else rng.choice([1, 1, 2]), gap_model='none', const_props=False,
                               length=round(rng.uniform(0.1, 0.25), 3), flow_range=(0.2, 5.0), **forced)
         base['core']['coolant_material'] = coolant
+        if ci % 3 != 0 and rng.random() < 0.6:
+            # correlated parameters re-evaluated only when the coolant properties moved by more than a tolerance: the reference
+            # values of that test are per-assembly state, too
+            base['setup']['param_update_tol'] = rng.choice([0.01, 0.002, 0.05])
         for tn in list(base['types']):
             if rng.random() < 0.3:
                 gi.add_axial_regions(rng, base, tn)
